@@ -291,3 +291,16 @@ func ctrInv(s *seqCounters) bool {
 //@   wiring
 //@   requires stsd != nil && len(stsd.Children) >= 1
 //@   keep index
+
+// modifySegmentTemplate: the timeline of an adaptation set is built from the stored segment
+// data of its first representation, one item per number firstNr..lastNr in order: startNumber is
+// firstNr, the first run starts at the first item's decode time with its duration, a run is
+// extended only by an item of the same duration, and completed runs are appended in order.
+//@ func (*segmentTimelineGenerator).modifySegmentTemplate
+//@   wiring
+//@   callsite getItem requires numbersInOrder: arg_seqNr == seqNr && arg0 == sdb
+//@   callsite Ptr[uint32] requires startNumberIsFirst: arg0 == uint32(firstNr)
+//@   callsite Ptr[uint64] requires firstRunStartsAtFirstItem: arg0 == uint64(sd.dts) && seqNr == firstNr
+//@   store s.R++ requires runOfEqualDurations: uint64(sd.dur) == s.D
+//@   callsite append:stl.S requires runsInOrder: vararg0 == s
+//@   loop 1 invariant s == nil ==> seqNr == firstNr
